@@ -405,7 +405,7 @@ def coreLoop (s : Str) (fn : Footnotes.Table) : Nat → Nat → FState → Res (
           let st1 := if st.inRun.isSome then
               { pushDelim st (mkDelim st.start (if !st.escaped then i else i - 1) s) with inRun := none, escaped := false }
             else st
-          coreLoop s fn fuel cm.stop { st1 with codes := cm :: st1.codes, code := codeSearch s cm.stop }
+          coreLoop s fn fuel cm.stop { st1 with codes := cm :: st1.codes, code := codeSearch s cm.stop, inImage := false }
       else if c = '\\' && !st.escaped then coreLoop s fn fuel (i + 1) { st with escaped := true }
       else
         let st1 := if st.inRun.isSome && (some c != st.inRun || st.escaped) then
@@ -423,7 +423,7 @@ def coreLoop (s : Str) (fn : Footnotes.Table) : Nat → Nat → FState → Res (
             | .ok (i', ds', ms') => coreLoop s fn fuel (i' + 1) { st2 with ds := ds', ms := ms', code := codeSearch s i' }
           else if st2.inImage then coreLoop s fn fuel (i + 1) { st2 with inImage := false }
           else coreLoop s fn fuel (i + 1) st2
-        else coreLoop s fn fuel (i + 1) { st2 with escaped := false }
+        else coreLoop s fn fuel (i + 1) { st2 with escaped := false, inImage := false }
 
 /-- `find_core_tokens(string, root)`: the matches in the order they were appended, and
     `_code_matches` as `InlineCode.find` will return them -/
@@ -431,7 +431,7 @@ def findCoreTokens (s : Str) (fn : Footnotes.Table) : Res (List CoreM × List Co
   match coreLoop s fn (s.length + 2) 0 { code := codeSearch s 0 } with
   | .err e => .err e
   | .ok (i, st) =>
-    let st1 := if st.inRun.isSome then pushDelim st (mkDelim st.start i s) else st
+    let st1 := if st.inRun.isSome then pushDelim st (mkDelim st.start (if !st.escaped then i else i - 1) s) else st
     match processEmphasis s none st1.ds st1.ms with
     | .err e => .err e
     | .ok (_, ms) => .ok (ms.reverse, st1.codes.reverse)
